@@ -37,6 +37,10 @@ EXPLANATION = (
     "index; (d) the formatter converts each component list elementwise (order kept). NOT decided: tie behaviour of argsort; that "
     "the interval handed over is the one the DP selected (C03)."
 )
+# obligations added during the build phase (seeding rounds, twins, mutation analysis)
+ADDED_IN_BUILD = " Also: the point family is the CONFIGURED point penalty (scenario with point_penalty='dense'); the sparse family computes alpha = 2 scale log n and beta = 2 scale log(k p) (C15.a sparse|alpha, sparse|betas re-run); FORMAT is decided on the formatter's paths (C04.a icolumns re-run), not on the spelling of the conversion."
+EXPLANATION = EXPLANATION + ADDED_IN_BUILD
+
 ASSUMPTIONS = [
     "Python's ast module and evaluation-order/argument-binding semantics as implemented in skverif/symex.py",
     "library model table skverif/models.py (argsort returns a permutation, cumsum, argmax, slicing)",
